@@ -418,8 +418,8 @@ func run(r *core.Run) {
 	// the live heap (state sets) reaches a few hundred MB at the last thorough
 	// level: with the default GOGC the collector re-marks that live heap every
 	// few hundred transitions.  Trade memory for CPU, with a hard ceiling.
-	defer debug.SetGCPercent(debug.SetGCPercent(400))
-	defer debug.SetMemoryLimit(debug.SetMemoryLimit(5 << 30))
+	defer debug.SetGCPercent(debug.SetGCPercent(250))
+	defer debug.SetMemoryLimit(debug.SetMemoryLimit(3 << 30))
 	ops := alphabet(r.Thorough())
 	e := &explorer{r: r, ops: ops, opIndex: map[string]int{}}
 	for i, o := range ops {
